@@ -47,6 +47,10 @@ CLAIMS.update({
     "C15": ("effect summary of the pool worker + dominance/order checks of the phase structure + sibling comparison", "Decides the phase structure that makes the start-up index schedule-independent: the worker is a static function whose transitive writes touch only fresh objects and the per-process keyword-order global; join precedes the first result.get(); the merge loop resolves nothing across files; includes for all files, version bump, then links for all files - at start-up and on every open/save; both indexing paths construct and parse files with the same arguments. Not decided: order-dependence inside the resolvers, pickling fidelity, unordered sources of the file list."),
 })
 
+CLAIMS.update({
+    "C07": ("def-use obligations along the diagnostic pipeline, CFG path check per constructed diagnostic, constant folding of severities, write-effect summary of get_diagnostics", "Decides the error discipline of the diagnostic pipeline: every function that builds diagnostics is reachable from the aggregator, each per-scope checker's result and each callee-returned diagnostic is added, scope list and none-scope are both visited, end errors and parse errors are returned, both parts are merged and built, the list is published unchanged under the document's URI on every non-error path; no constructed diagnostic can reach the end of its function unappended; severities are 1..3; computing diagnostics writes no persistent state. Not decided: silence on all valid programs, presence at every seeding position (what the checkers find)."),
+})
+
 NA_REASON = "check under construction in this round (rules designed in DESIGN.md section 3, not yet implemented); will move to checks once its rules run"
 
 
